@@ -246,7 +246,7 @@ func init() {
 	eng.Register(&eng.Scenario{
 		Name: "cc-register", Props: []string{"C15"}, MustFinish: true, ObsNames: stdObs,
 		Doc:   "CContainer: 3 threads x 2 operations chosen from {GetValue, SetValue(5), SetValue(7), SwapValue(+1)}; porcupine: linearizable as one register",
-		Quick: eng.Bounds{PB: 1}, Thorough: eng.Bounds{PB: 3},
+		Quick: eng.Bounds{PB: 1}, Thorough: eng.Bounds{PB: 2},
 		Body: func() {
 			c := ccontainer.NewCContainer[int](0)
 			for t := 0; t < 3; t++ {
